@@ -128,15 +128,18 @@ def annotated_signature(annot):
     k = 0
     while toks[k].s != "fn":
         k += 1
-    depth = 0
+    # the body is the brace group that closes the item (an `ensures` clause may contain `match .. { }`)
+    last = len(toks) - 1
+    while last >= 0 and toks[last].s != "}":
+        last -= 1
     while k < len(toks):
         s = toks[k].s
-        if s in ("(", "["):
-            depth += 1
-        elif s in (")", "]"):
-            depth -= 1
-        elif s == "{" and depth == 0:
-            return full[:toks[k].a]
+        if s in ("(", "[", "{"):
+            c = rtok.match_close(toks, k)
+            if s == "{" and c == last:
+                return full[:toks[k].a]
+            k = c + 1
+            continue
         k += 1
     raise UnitError("no body in annotated copy")
 
